@@ -108,7 +108,7 @@ def build(spec):
                 R.add('%s/cap_hi/%d' % (nm, t), f <= a['max_cap'] * dt[t])
                 R.deliver(a['nodes'][0], t, -f)
                 R.deliver(a['nodes'][1], t, a['eff'] * f)
-                R.obj_terms.append(-DF[t] * a['cost'][t] * f)
+                R.obj_terms.append(-DF[t] * a['cost'][t] * z3.If(f >= 0, f, -f))      # costs act on the transported quantity |f| (reverse direction: f <= 0)
             for k, (steps, vol, frac_num, frac_den, sense) in enumerate(a.get('takes', [])):
                 if not steps:
                     continue
